@@ -60,6 +60,7 @@ pub struct Ctx {
     pub notes: Vec<String>,
 
     journal: Option<std::fs::File>,
+    violation_log: Option<String>,
     pub deadline: Instant,
     pub truncated: bool,
     cur_stage: String,
@@ -94,6 +95,7 @@ impl Ctx {
             sites: SiteCounters::default(),
             notes: Vec::new(),
             journal: None,
+            violation_log: None,
             deadline: Instant::now() + Duration::from_secs(3600),
             truncated: false,
             cur_stage: String::new(),
@@ -109,6 +111,12 @@ impl Ctx {
             .truncate(true)
             .open(path)
             .ok();
+        // violations are also appended, one JSON line each, the moment they are found: a worker that is
+        // later lost (watchdog, allocation failure in a case that ran on) still delivers what it saw
+        self.violation_log = Some(path.replace("journal_", "violations_").replace(".txt", ".jsonl"));
+        if let Some(p) = &self.violation_log {
+            let _ = std::fs::remove_file(p);
+        }
     }
 
     pub fn is_quick(&self) -> bool {
@@ -232,6 +240,18 @@ impl Ctx {
         if self.violations.len() >= 40 {
             self.count("violations_dropped_over_cap");
             return;
+        }
+        if let Some(path) = &self.violation_log {
+            use std::io::Write;
+            if let Ok(mut f) = std::fs::OpenOptions::new().create(true).append(true).open(path) {
+                let line = Json::obj()
+                    .with("signature", Json::s(signature))
+                    .with("detail", Json::s(detail.chars().take(2000).collect::<String>()))
+                    .with("stage", Json::s(&self.cur_stage))
+                    .with("index", Json::u(self.cur_index))
+                    .with("case", case.clone());
+                let _ = writeln!(f, "{}", line.to_text());
+            }
         }
         self.violations.push(Violation {
             signature: signature.to_string(),
